@@ -79,7 +79,7 @@ void harness(void){
     /* consecutive pieces tile the buffer */
     VASSERT(g_tiled,"concealed pieces are placed back to back from the start of the buffer");
   }
-  if(fec>=0&&fec<=1 && !plc && len>0){
+  if(fec>=0&&fec<=1 && !plc && len>0 && !(fec && frame_size%F2_5!=0)){
     rfc_pkt m=rfc_parse(pkt,len,SD);
     int pfs=(int)((long long)rfc_frame_48k(pkt[0])*st.Fs/48000);
     int celt=(pkt[0]&0x80)!=0;
